@@ -468,7 +468,7 @@ bool TasgridWrapper::executeCommand(){
     if (command == command_makequadrature or command == command_getquadrature)
         outputQuadrature();
 
-    if (not com.inside(constcoms))
+    if (pass_flag and not com.inside(constcoms)) // a command that reported an error does not leave a grid file behind
         writeGrid();
 
     return pass_flag;
@@ -505,6 +505,7 @@ std::vector<int> TasgridWrapper::readLimits() const{
     iassert(static_cast<int>(mat.getStride()) == num_dimensions,
             (std::string("level limits file has wrong number of entries, expected: ") + std::to_string(num_dimensions) +
              " but found " + std::to_string(mat.getStride())).c_str());
+    if (not pass_flag) return std::vector<int>(); // the copy below assumes the size that was just rejected
 
     std::vector<int> llimits(num_dimensions);
     std::transform(mat.begin(), mat.end(), llimits.begin(), [](double x)->int{ return static_cast<int>(x); });
@@ -519,6 +520,7 @@ std::vector<int> TasgridWrapper::readAnisotropic() const{
     iassert(mat.getStride() == expected_size,
             (std::string("level limits file has wrong number of entries, expected: ") + std::to_string(expected_size) +
              " but found " + std::to_string(mat.getStride())).c_str());
+    if (not pass_flag) return std::vector<int>(); // the copy below assumes the size that was just rejected
     std::vector<int> weights(expected_size);
     std::transform(mat.begin(), mat.end(), weights.begin(), [](double x)->int{ return static_cast<int>(x); });
     return weights;
